@@ -343,6 +343,12 @@ pub fn monitor(made: &Made, l: &mut Local) {
             if life.from <= *t_start || life.from + sl + 1 >= t_end || life.ttl <= 1 {
                 continue;
             }
+            // (a copy received at the very instant the previous one ran out, or within the stepping slack of it:
+            // a daemon that reads the packet before it looks at its expiries never lost the address and has
+            // nothing new to report)
+            if addr_lives.iter().any(|(oid, other)| *oid == *id && other.until <= life.from && life.from <= other.until + sl) {
+                continue;
+            }
             l.act("H1-trigger");
             let ip = ip_of(id).unwrap();
             let spelled = wire::dotted(&id.name);
